@@ -822,11 +822,11 @@ func OraclePrompt(prop string, v *View) []Violation {
 // sub-workflow run), or the client itself.
 func runRoot(name string) string {
 	root := name
-	segs := strings.SplitN(name, "/", 4)
-	if len(segs) >= 3 {
-		root = strings.Join(segs[:3], "/") // env/client/<name>
+	locs := spawnPart.FindAllStringIndex(name, -1)
+	if len(locs) > 0 && locs[0][0] > 0 {
+		root = name[:locs[0][0]-1] // what precedes the first go statement: env/client/<name>, env/main
 	}
-	for _, loc := range spawnPart.FindAllStringIndex(name, -1) {
+	for _, loc := range locs {
 		if spawnFunc[stripInstances(name[loc[0]:loc[1]])] == "*runningStep.executeSubWorkflows" {
 			root = name[:loc[1]]
 		}
